@@ -671,7 +671,7 @@ fn oracle_fit(ctx: &mut Ctx, fc: &FitCase, ft: &Fitted, class: &str) -> &'static
                 let ys = if fc.yb[i] { 1.0 } else { -1.0 };
                 let al = ys * a[i];
                 s += a[i];
-                ctx.require(al >= 0.0 && al <= c, "box", class, || format!("sample {} (y {}): coefficient {} outside [0,{}]", i, ys, al, c));
+                ctx.require(al >= 0.0 && al <= c, super::box_clause(al, 0.0, c, cast(cp.max(cn)), fe), class, || format!("sample {} (y {}): coefficient {:e} outside [0,{:e}]", i, ys, al, c));
                 let yf = ys * f[i];
                 if al < c - delta(c) {
                     worst = worst.max(1.0 - yf);
@@ -716,7 +716,7 @@ fn oracle_fit(ctx: &mut Ctx, fc: &FitCase, ft: &Fitted, class: &str) -> &'static
             let mut s = 0.0;
             for i in 0..n {
                 s += a[i];
-                ctx.require(a[i] >= 0.0 && a[i] <= 1.0, "box", class, || format!("sample {}: coefficient {} outside [0,1]", i, a[i]));
+                ctx.require(a[i] >= 0.0 && a[i] <= 1.0, super::box_clause(a[i], 0.0, 1.0, 1.0, fe), class, || format!("sample {}: coefficient {:e} outside [0,1]", i, a[i]));
                 if a[i] < 1.0 - delta(1.0) {
                     worst = worst.max(-f[i]);
                     ctx.require(f[i] >= -tol, "kkt_margin", class, || format!("sample {} with alpha {} < 1 has decision {} < 0", i, a[i], f[i]));
@@ -735,7 +735,7 @@ fn oracle_fit(ctx: &mut Ctx, fc: &FitCase, ft: &Fitted, class: &str) -> &'static
             let mut s = 0.0;
             for i in 0..n {
                 s += a[i];
-                ctx.require(a[i].abs() <= c, "box", class, || format!("sample {}: coefficient {} outside [-{},{}]", i, a[i], c, c));
+                ctx.require(a[i].abs() <= c, super::box_clause(a[i], -c, c, c, fe), class, || format!("sample {}: coefficient {:e} outside [-{:e},{:e}]", i, a[i], c, c));
                 let res = cast(fc.yr[i]) - f[i];
                 let ytol = tol + 16.0 * fe * fc.yr[i].abs();
                 // alpha_i - alpha*_i < C  => (alpha_i not at upper or alpha*_i > 0) : res <= eps
@@ -763,7 +763,7 @@ fn oracle_fit(ctx: &mut Ctx, fc: &FitCase, ft: &Fitted, class: &str) -> &'static
             let mut s = 0.0;
             for i in 0..n {
                 s += a[i];
-                ctx.require(a[i].abs() <= c, "box", class, || format!("sample {}: coefficient {} outside [-{},{}]", i, a[i], c, c));
+                ctx.require(a[i].abs() <= c, super::box_clause(a[i], -c, c, c, fe), class, || format!("sample {}: coefficient {:e} outside [-{:e},{:e}]", i, a[i], c, c));
             }
             ctx.require(s.abs() <= 64.0 * fe * (1.0 + sumabs) * (n as f64).sqrt(), "equality", class, || format!("sum of coefficients = {}", s));
             // second constraint of the nu-SVR dual: e'(alpha + alpha*) <= C nu n, and sum|alpha_i - alpha*_i| <= e'(alpha + alpha*)
